@@ -321,6 +321,78 @@ theorem counterexamples_repaired :
     ((resume Flags.fixed Ex.w (some (Ex.full.take 4))).map (fun o => o.final.map (fun F => decide (F.Perm Ex.log)))) = some (some true) := by
   decide
 
+/-! ### phase 3: maximal prefix, idempotence, entry point, end to end -/
+
+/-- [phase 3] `restore_maximal_prefix`: `_drop_torn_tail` (byte level) followed by record decoding restores EXACTLY the
+maximal prefix of complete records — `nCompleteB` counts the leading records whose text is completely present in the cut
+file (a record whose newline is missing counts) — for every cut point `k`, and the file becomes the clean log of that prefix -/
+theorem restore_maximal_prefix (w : World) (hw : w.OK) (L : List Rec) (hL : ValidLog w L) (k : Nat) :
+    restore Flags.fixed w.c (some (cut w L k)) =
+      some ⟨logFile w (L.take (nCompleteB w.c L (cut w L k))), L.take (nCompleteB w.c L (cut w L k))⟩ :=
+  restore_maximal_prefix' Flags.fixed rfl w hw L hL k
+
+/-- a cut of the example log inside its 4th record keeps 3 records; one byte before the 4th newline keeps 4 -/
+example : nCompleteB Ex.w.c Ex.log (cut Ex.w Ex.log 13) = 3 ∧ nCompleteB Ex.w.c Ex.log (cut Ex.w Ex.log 15) = 4 ∧
+    nCompleteB Ex.w.c Ex.log (cut Ex.w Ex.log 16) = 4 := by decide
+
+/-- [phase 3] `resume_idempotent` (plain files): running the experiment again on a COMPLETE log restores all of it, appends
+nothing, leaves the file byte-identical, returns the same log, and the only tasks it runs are those that never produce a
+record (raising evaluations) — none at all when every task records (`resume_idempotent_all`) -/
+theorem resume_idempotent (w : World) (hw : w.OK) (L : List Rec) (hL : ValidLog w L) (hfull : L.Perm w.universe) :
+    ∃ o, resume Flags.fixed w (some (logFile w L)) = some o ∧ o.restored.K = L ∧ o.appended = [] ∧
+      o.file = logFile w L ∧ o.final = some L ∧ (∀ t ∈ o.tasks, w.out t = none) :=
+  resume_idempotent_gen' Flags.fixed rfl w hw (Or.inl rfl) L hL hfull
+
+theorem resume_idempotent_committed (w : World) (hw : w.OK) (hI : NonEmptyI w) (L : List Rec) (hL : ValidLog w L)
+    (hfull : L.Perm w.universe) :
+    ∃ o, resume Flags.committed w (some (logFile w L)) = some o ∧ o.restored.K = L ∧ o.appended = [] ∧
+      o.file = logFile w L ∧ o.final = some L ∧ (∀ t ∈ o.tasks, w.out t = none) :=
+  resume_idempotent_gen' Flags.committed rfl w hw (Or.inr hI) L hL hfull
+
+example : ValidLog Ex.w Ex.log ∧ Ex.log.Perm Ex.w.universe := by
+  refine ⟨⟨by decide, by decide, ?_⟩, by rw [example_universe]; decide⟩
+  intro r hr; simp [Ex.log] at hr; exact hr.symm
+
+/-- the example: second run on the complete file runs no task and leaves the 24 bytes as they are -/
+theorem resume_idempotent_example :
+    (resume Flags.fixed Ex.w (some Ex.full)).map (fun o => (o.tasks, o.appended, decide (o.file = Ex.full))) =
+      some ([], [], true) := by decide
+
+/-- [phase 3] `resume_idempotent_gz`: for a complete `.gz` log the repair removes no byte, the text read is the log, and
+after the run has appended its end-of-run member (empty payload: DiskSink opens and closes the file once more) the file is
+the old bytes followed by that member and still reads as the same text.  (Byte-identity does not hold for `.gz`: the real
+file grows by one empty gzip member per run; the harness checks exactly this.) -/
+theorem resume_idempotent_gz (w : World) (L : List Rec) (scan : MScan) (ms : List Member) (e : Member)
+    (he : e.payload = []) (hlaws : MLaws scan (ms ++ [e])) (hpl : PayloadLog w.c ms L) :
+    gzRepair scan (flatM ms) = flatM ms ∧ gzText Flags.fixed scan (flatM ms) = some (logFile w L) ∧
+    gunzip scan (flatM ms ++ e.bytes) = some (logFile w L) :=
+  resume_idempotent_gz' Flags.fixed rfl w L scan ms e he hlaws hpl
+
+/-- [phase 3] `entry_glue`: `Experiment.run(result_file)` as a function of the path: missing directory raises; no file = fresh
+run; a name the gzip test rejects hands the bytes to the protocol unchanged; a name it accepts hands over the text of the
+repaired members (or raises when they can not be read); `Result.from_file` on the file a run leaves is the Result it returned -/
+theorem entry_glue (fl : Flags) (w : World) (isGz : GzPred) (scan : MScan) (name : Bytes) :
+    (∀ file, runEntry fl w isGz scan ⟨name, false, file⟩ = none) ∧
+    (runEntry fl w isGz scan ⟨name, true, none⟩ = resume fl w none) ∧
+    (isGz.eval name = false → ∀ data, runEntry fl w isGz scan ⟨name, true, some data⟩ = resume fl w (some data)) ∧
+    (isGz.eval name = true → ∀ data, runEntry fl w isGz scan ⟨name, true, some data⟩ =
+        (gzText fl scan data).bind (fun text => resume fl w (some text))) ∧
+    (isGz.eval name = false → ∀ R tasks pre app,
+        fromFile w.c isGz scan name (finish w.c R tasks pre app).file = (finish w.c R tasks pre app).final) :=
+  entry_glue' fl w isGz scan name
+
+/-- [phase 3] `cut_resume_end_to_end`: at FILE level, over arbitrary cut sequences.  Start from the file of any valid log;
+kill the run after `k₁` bytes, run again (any arrival order), kill that run after `k₂` bytes of the file it would have left,
+… (`ByteChain`).  For every sequence such a chain exists (no run ever raises); every file on it is the clean log
+`logFile w F` of a valid log (so every run's first write started on a fresh line), and after at least one run
+`Result.from_file` decodes it to `F`, which has exactly the records of the uninterrupted run.  Each single step restores the
+maximal prefix of complete records (`restore_maximal_prefix`) -/
+theorem cut_resume_end_to_end (w : World) (hw : w.OK) (L : List Rec) (hL : ValidLog w L) :
+    (∀ ks, ∃ h, ByteChain Flags.fixed w ks (logFile w L) h) ∧
+    (∀ ks h, ByteChain Flags.fixed w ks (logFile w L) h → ∃ F, h = logFile w F ∧ ValidLog w F ∧
+      (ks ≠ [] → decodeAll w.c h = some F ∧ F.Perm w.universe ∧ ∀ key, bodies F key = bodies w.universe key)) :=
+  cut_resume_end_to_end_gen' Flags.fixed rfl rfl w hw (Or.inl rfl) L hL
+
 /-! ### the hypothesis `NonEmptyI` is necessary for the committed code (finding C02-F6; repair proposed in phase 2) -/
 
 /-
